@@ -206,15 +206,15 @@ func genPool(rt *rapid.T, n int) []*Spec {
 	c.Name, d.Name, c.Sibling, d.Sibling = "biglex", "biglex-swapped", 7, 6
 	pool = append(pool, c, d)
 	// the action methods of each rule spread over several Go files, equal types spelled in different
-	// ways (any / interface{}, alias / aliased, []byte / []uint8): whichever file the Go loader
+	// ways within a rule and across rules (any / interface{}, alias / aliased, []byte / []uint8): whichever file the Go loader
 	// happens to finish first must not show in the output
 	pool = append(pool, &Spec{Name: "actions-in-several-go-files", Sibling: -1, Files: map[string]string{
-		"g.lox": "@lexer\nA = 'a'\nB = 'b'\nC = 'c'\nD = 'd'\n@frag ' ' @discard\n\n@parser\n@start s = v* C w+ B @list(x, D)?\nv = A | B B | D A A | D B B B\nw = A B | A C C | A D D D | A A A A A\nx = C | B A | B B B\n",
-		"t.go":  "package pkg\n\ntype Token struct{ S string }\n\ntype parser struct{ lox }\n\ntype Num = int32\n\nfunc (p *parser) on_s(vs []any, _ Token, ws []rune, _ Token, xs [][]byte) int { return len(vs) }\n",
+		"g.lox": "@lexer\nA = 'a'\nB = 'b'\nC = 'c'\nD = 'd'\n@frag ' ' @discard\n\n@parser\n@start s = yy zz qq v* C w+ B @list(x, D)?\nyy = D C\nzz = A C\nqq = B C\nv = A | B B | D A A | D B B B\nw = A B | A C C | A D D D | A A A A A\nx = C | B A | B B B\n",
+		"t.go":  "package pkg\n\ntype Token struct{ S string }\n\ntype parser struct{ lox }\n\ntype Num = int32\n\nfunc (p *parser) on_s(y any, z Num, q []byte, vs []any, _ Token, ws []rune, _ Token, xs [][]byte) int { return len(vs) }\n",
 		"a.go":  "package pkg\n\nfunc (p *parser) on_v__a(t Token) any { return nil }\nfunc (p *parser) on_w__a(a, b Token) Num { return 0 }\nfunc (p *parser) on_x__a(a Token) []byte { return nil }\n",
-		"b.go":  "package pkg\n\nfunc (p *parser) on_v__b(t, u Token) interface{} { return nil }\nfunc (p *parser) on_w__b(a, b, c Token) int32 { return 0 }\nfunc (p *parser) on_x__b(a, b Token) []uint8 { return nil }\n",
-		"c.go":  "package pkg\n\nfunc (p *parser) on_v__c(t, u, v Token) (r any) { return }\nfunc (p *parser) on_w__c(a, b, c, d Token) rune { return 0 }\nfunc (p *parser) on_x__c(a, b, c Token) []byte { return nil }\n",
-		"d.go":  "package pkg\n\nfunc (p *parser) on_v__d(t, u, v, w Token) interface{} { return nil }\nfunc (p *parser) on_w__d(a, b, c, d, e Token) Num { return 0 }\n",
+		"b.go":  "package pkg\n\nfunc (p *parser) on_v__b(t, u Token) interface{} { return nil }\nfunc (p *parser) on_w__b(a, b, c Token) int32 { return 0 }\nfunc (p *parser) on_x__b(a, b Token) []uint8 { return nil }\n\n// (rules of their own whose result types are the OTHER spelling of a type some other rule returns)\nfunc (p *parser) on_yy(a, b Token) interface{} { return nil }\n",
+		"c.go":  "package pkg\n\nfunc (p *parser) on_v__c(t, u, v Token) (r any) { return }\nfunc (p *parser) on_w__c(a, b, c, d Token) rune { return 0 }\nfunc (p *parser) on_x__c(a, b, c Token) []byte { return nil }\nfunc (p *parser) on_zz(a, b Token) int32 { return 0 }\n",
+		"d.go":  "package pkg\n\nfunc (p *parser) on_v__d(t, u, v, w Token) interface{} { return nil }\nfunc (p *parser) on_w__d(a, b, c, d, e Token) Num { return 0 }\nfunc (p *parser) on_qq(a, b Token) []uint8 { return nil }\n",
 	}})
 	// Go files in the directory that are not part of the package and declare other package names
 	// (a build-ignored generator program, a tools file, the external test package)
